@@ -10,18 +10,20 @@ _OPS = ['op_nop', 'op_verify', 'op_return', 'op_2drop', 'op_2dup', 'op_3dup', 'o
 CONTRACTS = ['bitcoinlib.scripts.Stack.' + o for o in _OPS] + [
     'bitcoinlib.scripts.encode_num', 'bitcoinlib.scripts.decode_num', 'bitcoinlib.scripts.decode_num[roundtrip]',
     'spec.script.script_num_decode[facts]', 'spec.script.cast_to_bool[facts]',
-    'bitcoinlib.scripts.Stack.op_verify[long-items-native]', 'bitcoinlib.scripts.Stack.op_ifdup[long-items-native]']
+    'bitcoinlib.scripts.Stack.op_verify[long-items-native]', 'bitcoinlib.scripts.Stack.op_ifdup[long-items-native]',
+    'bitcoinlib.scripts.Stack.op_checksig', 'bitcoinlib.scripts.Stack.op_checksigverify'] + [
+    'bitcoinlib.scripts.Stack.%s[n%d-m%d]' % (o, n, m) for n in range(4) for m in range(n + 1) for o in ('op_checkmultisig', 'op_checkmultisigverify')]
 LEVEL = 'proof'
 LEVEL_TEXT = ('Each of 53 Stack.op_* methods and encode_num/decode_num is verified, for stacks of ANY depth holding byte strings of ANY '
               'length, against the consensus effect of the opcode transcribed from the reference interpreter (spec/script.py): same final '
               'stack, same fail/success. 21 deviations found that way are open findings (pinned exactly; any other deviation is a violation). '
               'PICK/ROLL (symbolic stack positions), IF/NOTIF/ELSE/ENDIF expansion and the Script.evaluate dispatch loop are only covered by '
               'bounded stand-ins (exhaustive small scripts against a reference interpreter) and are not part of the proof claim; '
-              'CLTV and CSV are proved against BIP65 / BIP112 (both were repaired); CHECKSIG/CHECKMULTISIG are not covered yet.')
+              'CLTV and CSV are proved against BIP65 / BIP112 (both were repaired). CHECKSIG / CHECKSIGVERIFY (any stack) and CHECKMULTISIG / CHECKMULTISIGVERIFY (one case per n <= 3, m <= n; labelled bounded) are verified for their stack effect and signature / key matching order with an ABSTRACT signature check (Signature.parse_bytes / verify replaced by an uninterpreted predicate: an assumed model, listed).')
 LEVEL_NOTE = ('Trusted: pyvc VC generator and Python semantics (DESIGN §2.10); z3/cvc5; spec/script.py as the statement of consensus; hash functions '
               'as uninterpreted functions; @opaque spec functions (script_num_decode, cast_to_bool) are abstract at call sites, their stated '
               'facts are proved as lemma contracts. Exceptions count as FAIL exactly as Script.evaluate maps them.')
-NOT_COVERED = ['op_checksig / op_checksigverify / op_checkmultisig(verify)',
+NOT_COVERED = ['signature encodings inside scripts (empty signature, non-DER / compact signatures, hash types other than ALL) and multisig counts that are negative, above 20 or m > n',
                'Script.evaluate dispatch, IF/NOTIF expansion, PICK, ROLL: bounded stand-ins only']
 TRUSTED = ['spec/script.py (consensus oracle, transcribed from interpreter.cpp)', 'sha256/sha1/ripemd160 as uninterpreted functions',
            'pyvc engine']
